@@ -865,7 +865,7 @@ func TestVerif_C10_CoreHistories(t *testing.T) {
 	shard, nshards := kit.Shard()
 	r := kit.NewResult(t, "c10-core-histories", seed, "seeded random histories on a full core (Shamir seal or stored-key test seal, transactional store or not, with or without a Shamir-sealed child namespace): writes through the root barrier, the namespace barrier and the API / encryption-key rotation / root-key rotation / complete rekeys to random (shares, threshold) through both rekey APIs, with and without verification / keyring reload / seal+unseal of the core or of the namespace (always preceded by fewer-than-threshold, random, mixed and stale share sets, which must leave it sealed) / restart on the same store; after every unseal and restart and at the end everything written is read back, fresh barrier writes must carry 1+rotations as term, a sealed core or namespace must refuse reads, and no key operation may make a record of another barrier unreadable. A history is non-trivial when a key operation was followed by a seal/unseal or restart after which earlier data was read back; distinct by operation-kind sequence")
 	defer r.Write(t)
-	n := kit.N(80, 1600)
+	n := kit.N(80, 8000)
 	for h := 0; h < n; h++ {
 		if (h/8)%nshards != shard {
 			continue
@@ -1012,7 +1012,7 @@ func c10Cases() []c10Case {
 	thorough := kit.Tier() == "thorough"
 	maxPre := 2
 	if thorough {
-		maxPre = 3
+		maxPre = 4
 	}
 	add := func(c c10Case) {
 		out = append(out, c)
@@ -1095,7 +1095,7 @@ func TestVerif_C10_CoreCrash(t *testing.T) {
 			continue
 		}
 		pre := "cc:" + cs.name()
-		if oc := kit.OnlyCase(); oc != "" && !strings.HasPrefix(oc, pre+":") {
+		if oc := kit.OnlyCase(); oc != "" && oc != pre && !strings.HasPrefix(oc, pre+":") {
 			continue
 		}
 		c10CrashCase(t, r, seed, ci, cs, pre)
@@ -1141,6 +1141,12 @@ func c10CrashCase(t *testing.T, r *kit.Result, seed int64, ci int, cs c10Case, p
 			}
 			writeAll()
 		}
+		if i == 2 {
+			if _, err := e.opRekey(cs.scope, "sm", 4, 4, false); err != nil {
+				e.viol("rekey-failed", "pre-history rekey: %v", err)
+				return
+			}
+		}
 	}
 	if e.failed {
 		return
@@ -1176,19 +1182,42 @@ func c10CrashCase(t *testing.T, r *kit.Result, seed int64, ci int, cs c10Case, p
 	jw := c10Journal(j)
 	r.Count("journal_writes:"+cs.op, len(jw))
 	// position of the stored-keys write and of the operation's last write (F6 window)
-	stored, last := -1, -1
+	stored, keyringW, last := -1, -1, -1
+	var opWrites []int
 	for i, m := range j {
 		if m.Tag != "c10op" {
 			continue
 		}
 		last = i
+		opWrites = append(opWrites, i)
 		for _, w := range m.Writes {
 			if strings.HasSuffix(w.Key, StoredBarrierKeysPath) && stored < 0 {
 				stored = i
 			}
+			if strings.HasSuffix(w.Key, barrier.KeyringPath) && stored >= 0 && keyringW < 0 {
+				keyringW = i
+			}
 		}
 	}
-	r.Sample(map[string]any{"case": cs.name(), "journal": jw, "stored_keys_write": stored, "last_write": last})
+	r.Sample(map[string]any{"case": cs.name(), "journal": jw, "stored_keys_write": stored, "keyring_write": keyringW, "last_write": last})
+	// F6 signature (DESIGN section 3 F6 / section 4 C10), as a predicate over the crash prefix k of a rekey or root rotation:
+	//  (a) of the operation's writes the prefix holds the stored-keys write alone (cut between it and the keyring write), or
+	//  (b) the prefix holds the new keyring but not the operation's last write (Shamir: KEK copy / seal configuration still old).
+	f6 := func(k int) bool {
+		if stored < 0 || k <= stored || k > last {
+			return false
+		}
+		after := 0
+		for _, i := range opWrites {
+			if i > stored && i < k {
+				after++
+			}
+		}
+		if after == 0 {
+			return true
+		}
+		return keyringW >= 0 && k > keyringW && (cs.scope == "ns" || cs.shamir)
+	}
 	rekeyLike := cs.op == "root-rotate" || strings.HasPrefix(cs.op, "rekey")
 	shamirBarrier := cs.scope == "ns" || cs.shamir
 	replaced := shamirBarrier && newShares != nil && !c10SameShares(oldShares, newShares)
@@ -1204,7 +1233,7 @@ func c10CrashCase(t *testing.T, r *kit.Result, seed int64, ci int, cs c10Case, p
 		r.Eval(1)
 		r.Nontrivial(caseID)
 		e.caseID = caseID
-		wit := map[string]any{"case": cs.name(), "prefix": k, "of": len(j), "journal": jw, "stored_keys_write_index": stored, "last_operation_write_index": last,
+		wit := map[string]any{"case": cs.name(), "prefix": k, "of": len(j), "journal": jw, "stored_keys_write_index": stored, "keyring_write_index": keyringW, "last_operation_write_index": last,
 			"old_threshold": oldThr, "old_shares": len(oldShares), "new_threshold": cs.t, "new_shares": len(newShares), "pre_history": e.steps}
 		viol := func(class, format string, a ...any) {
 			r.Violate(class, caseID, fmt.Sprintf("[%s] %s cut after %d/%d writes: ", caseID, cs.name(), k, len(j))+fmt.Sprintf(format, a...), wit)
@@ -1292,7 +1321,7 @@ func c10CrashCase(t *testing.T, r *kit.Result, seed int64, ci int, cs c10Case, p
 		newOK := opened["shares returned by the completed operation"]
 		if len(opened) == 0 {
 			class := "C10-crash-unsealable"
-			if rekeyLike && stored >= 0 && k > stored && k <= last {
+			if rekeyLike && f6(k) {
 				class = c10ClassF6
 				r.Count("f6_window_prefixes_unsealable", 1)
 			}
